@@ -25,6 +25,18 @@ def model_headings(doc):
     return out
 
 
+def _entry_text(c):
+    """literal text of one inline token of an entry; anything that is markup shows up as <Type> and so never equals a title"""
+    name = type(c).__name__
+    if name == 'RawText':
+        return c.content
+    if name == 'EscapeSequence':
+        return ''.join(_entry_text(k) for k in c.children)
+    if name == 'LineBreak':
+        return '\n'
+    return '<%s>' % name
+
+
 def walk_toc(lst, depth, out, errs):
     if type(lst).__name__ != 'List':
         errs.append('expected a List at depth %d, got %s' % (depth, type(lst).__name__))
@@ -34,8 +46,7 @@ def walk_toc(lst, depth, out, errs):
         if not kids or type(kids[0]).__name__ != 'Paragraph':
             errs.append('entry at depth %d does not start with a paragraph: %r' % (depth, [type(k).__name__ for k in kids]))
             continue
-        text = ''.join(getattr(c, 'content', '\n') if type(c).__name__ == 'RawText' else ('\n' if type(c).__name__ == 'LineBreak' else '<%s>' % type(c).__name__)
-                       for c in kids[0].children)
+        text = ''.join(_entry_text(c) for c in kids[0].children)
         out.append((depth, text))
         for k in kids[1:]:
             if type(k).__name__ == 'List':
@@ -51,7 +62,7 @@ def check_case(case):
     filt = [tuple(f) for f in toc_opts.get('filters', [])]
     if not 1 <= depth <= 6:
         return Out(skip='malformed case')
-    opts = {'outline': True, 'outline_top': int(case.get('top', 1)), 'top_blocks': 10, 'exclude': c03.Documents().excludes()}
+    opts = {'outline': True, 'outline_rich': True, 'outline_top': int(case.get('top', 1)), 'top_blocks': 10, 'exclude': c03.Documents().excludes()}
     if not 1 <= opts['outline_top'] <= 4:
         return Out(skip='malformed case')
     try:
@@ -115,7 +126,7 @@ class Documents(HypPart):
                 'toc': {'depth': t.weighted([(2, 5), (1, 1), (2, 2), (2, 3), (1, 4), (1, 6)]), 'omit_title': not t.chance(110), 'filters': filters}}
 
     def describe(self, case):
-        opts = {'outline': True, 'outline_top': int(case.get('top', 1)), 'top_blocks': 10, 'exclude': c03.Documents().excludes()}
+        opts = {'outline': True, 'outline_rich': True, 'outline_top': int(case.get('top', 1)), 'top_blocks': 10, 'exclude': c03.Documents().excludes()}
         return 'toc options %r\n%s' % (case.get('toc'), c03.build(case, opts)[1])
 
     def check(self, case):
@@ -129,6 +140,10 @@ CURATED = [
      [[0, 'a b'], [0, 'in quote'], [1, 'in item'], [0, 'last']]),
     ("# T\n\n## keep\n\n## drop me\n\n### x\n", {'depth': 2, 'omit_title': False, 'filters': [['contains', 'drop']]},
      [[0, 'T'], [1, 'keep']]),
+    ("# \\*a\\*\n\n## 1. x\n\n## &#35; y\n\n## AT&T `<b>` \\&amp;\n", {'depth': 5, 'omit_title': False, 'filters': []},
+     [[0, '*a*'], [1, '1. x'], [1, '# y'], [1, 'AT&T <b> &amp;']]),
+    ("## - a\n\n## > b `c`\n\n## [d](e) \\[f\\]\n", {'depth': 5, 'omit_title': True, 'filters': [['startswith', '>']]},
+     [[0, '- a'], [0, 'd [f]']]),
 ]
 
 
@@ -167,7 +182,8 @@ class C19(Prop):
     assumptions = (
         'cases without a qualifying heading, or whose qualifying headings do not themselves form an outline (first one shallowest, never '
         'deepening by more than one), are skipped and counted: the API has no representable result for them',
-        'titles are plain words, so that the Markdown re-tokenisation inside TocRenderer.toc cannot reinterpret them',
+        'titles are words, punctuation, HTML-significant characters, character references, backslash escapes and code spans; images, raw HTML and '
+        'line breaks in titles, and Unicode spaces at a title\'s edge (the block parser strips them like ASCII spaces; DESIGN.md section 9), are not generated',
     )
 
     def parts(self):
